@@ -60,7 +60,63 @@ def emptiness(enc):
     return 'nonempty'
 
 
+SELF_SHAPES = {
+    'self': lambda t, T: t, 'alone-in-list': lambda t, T: [t], 'first': lambda t, T: [t, 'x'],
+    'after-blank': lambda t, T: ['', t], 'after-piece': lambda t, T: ['x', t], 'after-break': lambda t, T: ['x\ny', t, 'z'],
+    'dict-after': lambda t, T: {'k': 'x', 'v': t}, 'twice': lambda t, T: [t, t], 'thrice': lambda t, T: [t, '-', t, '-', t],
+    'nested': lambda t, T: ['x', [t]], 'in-block': lambda t, T: ['x', T([t])], 'deep': lambda t, T: [['x', {'a': ['y', t]}], 'z'],
+}
+SELF_ORIGS = [[], ['a'], ['a', 'b'], ['', 'a', '']]
+
+
+def judge_self(case):
+    """IDENTITY: the content handed over holds the RECEIVING block itself. Differential oracle: the same operation with
+    an equal but distinct block in its place (the pieces are taken as they are when the operation starts)."""
+    from dznpy.text_gen import TextBlock  # pylint: disable=import-outside-toplevel
+    shape = SELF_SHAPES[case['shape']]
+    hdr = case.get('header')
+
+    def fresh():
+        return TextBlock(list(case['orig']), header=hdr) if hdr else TextBlock(list(case['orig']))
+    out = []
+    try:
+        ref, twin, got = fresh(), fresh(), fresh()
+        if case['op'] == 'append':
+            ref.append(shape(twin, TextBlock))
+            got.append(shape(got, TextBlock))
+        elif case['op'] == 'iadd':
+            ref += shape(twin, TextBlock)
+            got += shape(got, TextBlock)
+        else:
+            ref = ref + shape(twin, TextBlock)
+            got = got + shape(got, TextBlock)
+        if list(got.lines) != list(ref.lines) or str(got) != str(ref):
+            out.append(('content-holding-the-receiver', f'{case}: lines={got.lines!r}; with an equal but distinct block in its '
+                                                        f'place: {ref.lines!r}'))
+    except RecursionError:
+        out.append(('content-holding-the-receiver:RecursionError', str(case)))
+    except Exception as exc:  # pylint: disable=broad-except
+        out.append((f'content-holding-the-receiver:{type(exc).__name__}', f'{case}: {exc!r}'))
+    return out
+
+
+def alias_encs():
+    """The SAME list / dict / TextBlock object at several positions of one content value."""
+    subs = [['L', {'s': ''}], ['L', {'s': 'x'}], ['D', {'s': 'y'}], ['L'], ['T', {'s': 't'}], ['L', {'s': 'a\nb'}, None],
+            ['H', {'s': 'q'}], ['L', ['L', {'s': 'z'}]], ['L', {'s': '----'}]]
+    out = []
+    for sub in subs:
+        same = ['=', 1, sub]
+        for enc in (['L', {'s': 'a'}, same, {'s': 'b'}, same, {'s': 'c'}], ['D', same, same], ['L', same, ['L', same]],
+                    ['L', same, same, same, same], ['T', same, ['D', {'s': 'm'}, same]], ['L', ['T', same], same],
+                    ['L', same, {'s': 'text'}, same]):
+            out.append(enc)
+    return out
+
+
 def judge(case):
+    if case.get('kind') == 'self':
+        return judge_self(case)
     R.FORM[0] = case.get('form')
     try:
         return _judge(case)
@@ -274,14 +330,8 @@ def work_strings(slot):
             cases.append({'enc': {'s': s}, 'form': 'subclass'})
             cases.append({'enc': ['L', {'s': 'x'}, ['D', {'s': s}], None], 'form': 'subclass'})
     if idx == 1 % nslots:
-        # the SAME list / dict / TextBlock object at several positions of one content value
-        subs = [['L', {'s': ''}], ['L', {'s': 'x'}], ['D', {'s': 'y'}], ['L'], ['T', {'s': 't'}], ['L', {'s': 'a\nb'}, None],
-                ['H', {'s': 'q'}], ['L', ['L', {'s': 'z'}]]]
-        for sub in subs:
-            same = ['=', 1, sub]
-            for enc in (['L', {'s': 'a'}, same, {'s': 'b'}, same, {'s': 'c'}], ['D', same, same], ['L', same, ['L', same]],
-                        ['L', same, same, same, same], ['T', same, ['D', {'s': 'm'}, same]], ['L', ['T', same], same]):
-                cases.append({'enc': enc})
+        for enc in alias_encs():
+            cases.append({'enc': enc})
     if idx == 0:
         # scalars that a truthiness test would mistake for "empty"
         for leaf in ({'n': 0}, {'n': 0.0}, {'b': False}, {'b': True}, {'n': -1}, {'n': 10 ** 20}):
@@ -298,6 +348,19 @@ def work_strings(slot):
             cases.append({'enc': ['L'] + [{'s': 'a\nb'} if mask >> i & 1 else {'s': 'l'} for i in range(n)], 'light': True})
     _run_cases(cases, part)
     part.states += len(cases)
+    if idx == 2 % nslots:
+        for orig in SELF_ORIGS:
+            for shape in SELF_SHAPES:
+                for op in ('append', 'iadd', 'add'):
+                    for hdr in (None, 'Hdr'):
+                        case = {'kind': 'self', 'orig': orig, 'shape': shape, 'op': op, 'header': hdr}
+                        part.evaluations += 1
+                        part.states += 1
+                        part.transitions += 1
+                        part.nontrivial += 1
+                        part.outcome('content-holds-receiver')
+                        for key, what in judge_self(case):
+                            part.violation(key, what, case)
     return part
 
 
